@@ -1688,6 +1688,139 @@ def _rule2(ctx, rep):
             raise AnalysisError('no command acting on the operational branch found in tools.submit.automatic (1 confirmed by reading)')
 
 
+# what each compliance rule has to look at to verify what its docstring (and the property statement) says it verifies;
+# frozen from reading tools/compliant.py, one line of reason each.  A rule that no longer makes one of these observations
+# cannot reject the violation it exists for.
+_RULE_OBSERVES = {
+    'rule_01': ({'import_module', 'signature'}, 'factory signature: the package is imported and the factory signature inspected'),
+    'rule_02': ({'isinstance'}, 'base types: every bot / routine / state vector / value is tested with isinstance'),
+    'rule_03': ({'name', 'routines', 'state_vectors', '_verify_version'}, 'abstract methods: each abstract accessor is called and the version checked'),
+    'rule_04': ({'name', 'find'}, 'dotted names: name() of algorithms and state vectors is searched for "."'),
+    'rule_05': ({'len'}, 'empty state vectors: the number of predefined keys is measured'),
+    'rule_06': ({'previous', 'import_module'}, 'previous(): references are resolved against the imported task module'),
+    'rule_07': ({'dumps', 'loads'}, 'unpicklable values: a value has to survive the round trip pickle.dumps -> pickle.loads'),
+    'rule_08': ({'isinstance'}, 'ill-typed references: each element of a *_REF is tested with isinstance'),
+    'rule_09': ({'state_vectors', 'len'}, 'missing state vectors: the number of state vectors of every routine is measured'),
+    'rule_10': ({'events', 'isinstance'}, 'schedule moments: every event of the package is read and its fields type-tested'),
+    'rule_11': ({'as_vref', 'task_name'}, 'unresolvable references: references are expanded to value level and resolved by task name'),
+}
+
+
+def _rule4(ctx, rep):
+    """added after seeded change C16-3 (rule_07 reduced to pickle.dumps: a Value whose constructor needs an argument dumps
+    fine but cannot be loaded, and no other rule rejects it)"""
+    prog = ctx.prog
+    from ..inline import baseline
+
+    with rep.rule(
+        'R-C16-4',
+        'each compliance rule makes the observations it needs for the violation it exists to reject (table _RULE_OBSERVES, read from tools/compliant.py)',
+        floor=11,
+        breaks='the gate accepts a package that breaks that rule: the rule still runs and still returns a verdict, but no longer looks at what it judges',
+    ) as r:
+        mod = 'dawgie.tools.compliant'
+        rules = sorted(q for q in prog.funcs if q.startswith(mod + '.rule_') and prog.funcs[q].parent is None)
+        for q in rules:
+            f = prog.funcs[q]
+            rep.analysed(f)
+            r.instance()
+            want = _RULE_OBSERVES.get(f.name)
+            if want is None:
+                r.fail(f'{q}:observes', where(f), f'{f.name} is not in the table of required observations: a rule was added without recording what it has to look at')
+                continue
+            seen = set()
+            todo, done = [f], set()
+            while todo:
+                g = todo.pop()
+                if g.qname in done:
+                    continue
+                done.add(g.qname)
+                for n in ast.walk(g.node):
+                    if isinstance(n, ast.Call):
+                        fn = n.func
+                        seen.add(fn.attr if isinstance(fn, ast.Attribute) else (fn.id if isinstance(fn, ast.Name) else ''))
+                        cq = prog.resolve_in(fn, g) if isinstance(fn, (ast.Name, ast.Attribute)) else None
+                        h = prog.funcs.get(cq) if cq else None
+                        # helpers newly extracted from a rule are searched with it
+                        if h is not None and h.module is f.module and h.qname not in baseline():
+                            todo.append(h)
+            missing = sorted(want[0] - seen)
+            r.check(
+                not missing,
+                f'{q}:observes',
+                where(f),
+                f'{want[1]}',
+                f'{f.name} no longer calls {missing} ({want[1]}): it cannot reject the violation it exists for',
+            )
+        absent = sorted(set(_RULE_OBSERVES) - {prog.funcs[q].name for q in rules})
+        if absent:
+            r.fail(f'{mod}:rules-present', f'tools/compliant.py:1', f'compliance rules {absent} no longer exist: the violations they reject are accepted')
+
+
+def _rule5(ctx, rep):
+    """the gate judges the submitted copy (added after seeded change C16-4: main() appended the AE root to sys.path
+    "unless already there"; an importable operational copy then shadowed the changeset and the exit status judged the
+    wrong package)"""
+    prog = ctx.prog
+    f = prog.nfunc('dawgie.tools.compliant.main')
+    rep.analysed(f)
+    with rep.rule(
+        'R-C16-5',
+        'the compliance process imports the package under --ae-dir: main() puts the root derived from args.ae_dir at the FRONT of sys.path, unconditionally, before the packages are scanned and verified',
+        floor=1,
+        breaks='another importable copy of the engine (the operational one) is verified instead of the changeset: a non-compliant changeset goes operational',
+    ) as r:
+        def derived(e, depth=0):
+            """does the expression depend on args.ae_dir (following locals)?"""
+            for x in ast.walk(e):
+                if isinstance(x, ast.Attribute) and x.attr == 'ae_dir':
+                    return True
+                if isinstance(x, ast.Name) and depth < 3:
+                    for d in f.own_nodes():
+                        if isinstance(d, ast.Assign) and any(isinstance(t, ast.Name) and t.id == x.id for t in d.targets) and derived(d.value, depth + 1):
+                            return True
+            return False
+
+        class Fl(Flow):
+            def __init__(s):
+                super().__init__()
+                s.verify_states = []
+
+            def on_call(s, call, st):
+                fn = call.func
+                if isinstance(fn, ast.Attribute) and fn.attr == 'insert' and norm(fn.value) == 'sys.path' and len(call.args) == 2:
+                    if isinstance(call.args[0], ast.Constant) and call.args[0].value == 0 and derived(call.args[1]):
+                        return ('front',)
+                q = prog.resolve_in(fn, f) or ''
+                if q.endswith('compliant._verify') or q.endswith('compliant._scan'):
+                    s.verify_states.append((call, st))
+                return (st,)
+
+            def on_stmt(s, node, st):
+                # sys.path[0:0] = [root]  /  sys.path = [root] + sys.path
+                if isinstance(node, ast.Assign) and len(node.targets) == 1:
+                    t, v = node.targets[0], node.value
+                    if isinstance(t, ast.Subscript) and norm(t.value) == 'sys.path' and norm(t.slice) in ('0:0', ':0') and derived(v):
+                        return ('front',)
+                    if norm(t) == 'sys.path' and isinstance(v, ast.BinOp) and isinstance(v.op, ast.Add) and norm(v.right) == 'sys.path' and derived(v.left):
+                        return ('front',)
+                return (st,)
+
+        fl = Fl()
+        fl.run(f.node, 'no')
+        if not fl.verify_states:
+            raise AnalysisError('compliant.main no longer calls _scan / _verify')
+        r.instance()
+        bad = [(c, st) for c, st in fl.verify_states if st != 'front']
+        r.check(
+            not bad,
+            f'{f.qname}:ae-root-first-on-path',
+            where(f, bad[0][0] if bad else None),
+            'sys.path.insert(0, <root of args.ae_dir>) dominates _scan / _verify',
+            f'{f.qname} reaches {norm(bad[0][0])[:50] if bad else ""} on a path where the root of --ae-dir was not put at the front of sys.path: an already importable copy of the engine is verified instead',
+        )
+
+
 def check(ctx):
     rep = Report(
         PID,
@@ -1719,6 +1852,8 @@ def check(ctx):
     _rule1(ctx, rep, sh)
     _rule2(ctx, rep)
     _rule3(ctx, rep, sh)
+    _rule4(ctx, rep)
+    _rule5(ctx, rep)
     return rep
 
 
@@ -1808,6 +1943,9 @@ _WALK_LOOP_HELPER = """def visit(product, ifroutine, inputs):
     return"""
 
 VARIANTS = [
+    V('AE root appended to sys.path', 'B', 'tools/compliant.py', 'main', 'sys.path.insert(\n        0, ', 'sys.path.insert(\n        len(sys.path), ', 'R-C16-5'),
+    V('rule_07 only dumps', 'B', 'tools/compliant.py', 'rule_07', 's = pickle.dumps(v)\n            vp = pickle.loads(s)  # noqa: F841', 'pickle.dumps(v)', 'R-C16-4'),
+    V('rule_07 round trip in one expression', 'N', 'tools/compliant.py', 'rule_07', 's = pickle.dumps(v)\n            vp = pickle.loads(s)  # noqa: F841', 'pickle.loads(pickle.dumps(v))', None),
     # ---- R-C16-1
     V('regress branch uses the routine of another branch again', 'B', _C, '_walk', 'for ref in r.feedback():', 'for ref in a.feedback():', 'R-C16-1'),
     V('task branch reads the regression variable', 'B', _C, '_walk', 'for ref in a.previous():', 'for ref in r.previous():', 'R-C16-1'),
